@@ -4,6 +4,14 @@ def purefn(groups, n=(1500, 60000), monitor=(3000, 100000)):
     return {"bin": "purefn", "model": "purefn", "groups": groups, "n": n, "monitor": monitor, "workers": 8}
 
 PROPS = {
+    "C07": {
+        "lean": ["IbcVerif.Props.C07"],
+        "engines": [purefn(["commit"], n=(400, 20000), monitor=(1000, 50000))],
+        "trusted": ["SHA-256 is a parameter H with 32-byte outputs in the theorems (collision-extraction form); the executable SHA-256 of the driver is validated against crypto/sha256 on every run (function sha256) and satisfies the length hypothesis (Sha256.sha256_length)",
+                    "sdk.Uint64ToBigEndian modelled by IbcVerif.be64 (8 bytes, big-endian)"],
+        "assumptions": ["timeout fields are uint64 (PacketV1.WF)"],
+        "level_text": "full: binding of every committed field for v1/v2 packets and acks, for all inputs, in collision-extraction form; formula equality by rfl + byte-exact correspondence",
+    },
     "C17": {
         "lean": ["IbcVerif.Props.C17"],
         "engines": [purefn(["height"])],
